@@ -134,7 +134,12 @@ def binary_case(draw):
     fu = draw(follow_ups(alts, alts))
     # the other operand may be the operand itself or derived from it (results inherit internals of their operands);
     # the operator may be spelt as an augmented assignment on a second reference
-    derive = draw(st.sampled_from([None, None, None, "same", "neg", "twice"])) if cls in ("log", "same_unit", "other_unit") else None
+    derive = draw(st.sampled_from([None, None, None, "same", "neg", "twice", "equal"])) if cls in ("log", "same_unit", "other_unit") else None
+    if derive == "equal" and alts:
+        # a second, separate quantity with the same number, uncertainty and units; both are then converted to the same
+        # unit and one of them is given another uncertainty: two objects, never one shared magnitude
+        u_ = draw(st.sampled_from(alts))
+        fu = [["a", "to", u_], ["b", "to", u_], ["a", draw(st.sampled_from(["abse", "rele"])), 0.5], ["b", "to", alts[0]], ["b", "abse", 0.125]]
     aug = op != "==" and draw(st.integers(0, 4)) == 0
     return {"kind": "binary", "cls": cls, "op": op, "a": a, "b": b, "swap": draw(st.booleans()), "follow": fu,
             "derive": derive, "aug": aug}
@@ -364,10 +369,10 @@ def check_binary(case, v):
     derive = case.get("derive")
     if derive:
         try:
-            B = {"same": lambda: A, "neg": lambda: -A, "twice": lambda: A + A}[derive]()
+            B = {"same": lambda: A, "neg": lambda: -A, "twice": lambda: A + A, "equal": lambda: _mk(a_spec)}[derive]()
         except Exception:
             return v.discard("derived-operand-not-defined")
-        bdesc = {"same": "a", "neg": "(-a)", "twice": "(a + a)"}[derive] + " [a = " + _describe(a_spec) + "]"
+        bdesc = {"same": "a", "neg": "(-a)", "twice": "(a + a)", "equal": "(an equal quantity built separately)"}[derive] + " [a = " + _describe(a_spec) + "]"
     left, right = (B, A) if case["swap"] else (A, B)
     lt, rt = (bdesc, _describe(a_spec)) if case["swap"] else (_describe(a_spec), bdesc)
     aug = bool(case.get("aug"))
